@@ -115,6 +115,8 @@ class Unit:
         self.stmts = []        # (line, text) of every statement of the unit
         self.entries = []
         self.nstmts = 0
+        self.header = ''       # text of the SUBROUTINE / FUNCTION statement
+        self.labels = {}       # statement index in stmts -> numeric label
 
 
 def guard_of(text):
@@ -155,6 +157,7 @@ def scan_file(path, relpath=None, src=None):
                 continue
             if kind != 'MODULE':
                 cur = Unit(m.group(2), kind, relpath or path, st.line)
+                cur.header = t
                 units.append(cur)
                 block_ifs = []
                 continue
@@ -168,6 +171,8 @@ def scan_file(path, relpath=None, src=None):
             cur = None if not re.match(r'^END\s*$', t, re.I) or True else cur
             continue
         cur.nstmts += 1
+        if st.label:
+            cur.labels[len(cur.stmts)] = st.label
         cur.stmts.append((st.line, t))
         up = t.upper()
         if re.match(r'^COMMON\b', up):
